@@ -194,6 +194,13 @@ for _u in UNITS:
     if _u["id"] in ("U-emit-hints", "U-wrap", "U-children") and "C12" not in _u["props"]:
         _u["props"].append("C12")
 
+UNITS += [
+    U("U-rt-structural", ["resolve_type::infer_runtime_type"], ["rt1_array", "rt1_tuple", "rt1_fn", "rt1_paren"], ["C17"], completeness="bounded",
+      domain="array / tuple -> Array, function type -> Function, parentheses transparent (one level; type inputs in global slots)", mem_gb=6, timeout=600, unwindset={"memcmp.0": 12}, assumes=[A_DROP, A_CLONE]),
+    U("U-rt-structural-more", ["resolve_type::infer_runtime_type", "resolve_type::resolve_indexed_access"], ["rt1_array_index_literal", "rt1_array_index_number", "rt1_union_boolean_string", "rt1_union_string_boolean", "rt1_nonnullable"], ["C17"],
+      completeness="bounded", tier="out_of_reach", domain="indexed access on arrays, union order, NonNullable: no verdict in 15 min at 16 GB even with global-backed inputs (the result of the first call is re-analysed through a copy whose shape CBMC no longer knows)", mem_gb=16, timeout=1800, assumes=[A_DROP, A_CLONE]),
+]
+
 CANARY = dict(harness="canary_must_fail", timeout=300, mem_gb=4)
 # self-check of the drop-glue assumption: must PASS (the model of Vec::extend_from_slice is in place and correct)
 SELFCHECK = dict(harness="guard_model_selfcheck", timeout=300, mem_gb=4)
